@@ -58,6 +58,7 @@ type outcome struct {
 	dumps     []string   // A's dump after each chunk (index by chunk number)
 	results   [][]string // A's results per chunk
 	chunkEnd  []int      // item index of each chunk end
+	everMixed bool       // the log at some point had a policy with both sharding types
 }
 
 func resString(r interface{}) string {
@@ -159,8 +160,9 @@ func exec(p *Plan, st stats) *outcome {
 	next := uint64(2)
 	first := next
 	restored := false
+	everMixed := false // sticky: the policy may be gone again by the time replicas are compared
 	fail := func(at int, sig, what string) *outcome {
-		if mixedSharding(ms.VerifFSMData(A)) {
+		if everMixed || mixedSharding(ms.VerifFSMData(A)) {
 			// input class: the policy's measurements do not share one sharding type
 			if k := strings.IndexByte(sig, '/'); k > 0 {
 				sig = sig[:k] + "[mixed-sharding]" + sig[k:]
@@ -192,6 +194,10 @@ func exec(p *Plan, st stats) *outcome {
 		st.cmd(it.Cmd.Name, r[0])
 		if r[0] == "" {
 			o.okCmds++
+			if !everMixed && it.Cmd.Name == "CreateMeasurementCommand" && mixedSharding(ms.VerifFSMData(A)) {
+				everMixed = true
+				o.everMixed = true
+			}
 		}
 		chunk = append(chunk, it.Cmd)
 		chunkRes = append(chunkRes, r...)
@@ -325,8 +331,9 @@ func hasMeasurement(d *metacmd.DataT) bool {
 // results recorded from A (map-iteration-order witness).
 func rerun(p *Plan, ref *outcome, batch bool) (sig string, what string) {
 	D := ms.VerifNewFSM(p.Opts)
+	everMixed := ref.everMixed
 	defer func() {
-		if sig != "" && mixedSharding(ms.VerifFSMData(D)) {
+		if sig != "" && (everMixed || mixedSharding(ms.VerifFSMData(D))) {
 			if k := strings.IndexByte(sig, '/'); k > 0 {
 				sig = sig[:k] + "[mixed-sharding]" + sig[k:]
 			}
@@ -340,6 +347,9 @@ func rerun(p *Plan, ref *outcome, batch bool) (sig string, what string) {
 			cmds = append(cmds, p.Items[i].Cmd)
 		}
 		r, pan := applyChunk(D, cmds, first, batch && cn%2 == 0)
+		if !everMixed && mixedSharding(ms.VerifFSMData(D)) {
+			everMixed = true
+		}
 		if pan != nil {
 			return "panic-divergence/rerun", fmt.Sprintf("re-execution panicked at chunk %d: %v", cn, pan)
 		}
